@@ -2,7 +2,7 @@
 from .lib.match import *
 from .C15 import sn_eq_expected
 
-SELECT = r'^bluetoe::link_layer::|^bluetoe::nrf52_details::|^bluetoe::nrf_details::|^test::'
+SELECT = r'^bluetoe::link_layer::ll_data_pdu_buffer::|^bluetoe::nrf52_details::|^bluetoe::nrf_details::'
 UNITS = lambda u: u in ('w_inst_ll',) or u.startswith('t_link_layer') or u.startswith('nrf_')
 BUF = 'bluetoe::link_layer::ll_data_pdu_buffer::'
 META = {
@@ -18,7 +18,26 @@ def run(chk, facts, tier):
     chk.rule('tx-counter-site', 'increment_transmit_packet_counter() is called only in ll_data_pdu_buffer::acknowledge(bool), in the same branch as pop_end (sn != nesn, no empty PDU outstanding)', floor=1)
     chk.rule('nesn-toggle-counts', 'every NESN toggle is in received() and the receive counter increment is reachable only through that toggle\'s branch', floor=1)
     variants(facts, BUF + 'received', chk)
+    chk.rule('counter-carry', 'nRF52 39 bit packet counter: increment() is ++low with a carry into high exactly when low wrapped to 0; the counters are incremented only by the two forwarding functions', floor=3)
+    for fn in facts.fns('bluetoe::nrf52_details::counter::increment'):
+        sts = [(target_name(tgt), op, st) for tgt, op, val, st in stores(fn.body)]
+        ok = sorted(x[0] for x in sts) == ['high', 'low'] and all(op == '++' for n, op, st in sts)
+        if ok:
+            hi = [st for n, op, st in sts if n == 'high'][0]
+            lo = [st for n, op, st in sts if n == 'low'][0]
+            ok = has_atom(guard_atoms(fn, hi), lambda n: is_name(n, 'low'), {'=='}, lambda o: cval(o) == 0) and precedes(fn, lo, hi) and not fn.guards(lo)
+        chk.instance('counter-carry', fn, '++low; if (low == 0) ++high', ok, '' if ok else 'the packet counter does not carry into its upper bits: the CCM nonce repeats after 2^32 packets', key='carry')
     for fn in facts.functions:
+        if fn.q.startswith('bluetoe::nrf52_details::'):
+            for c in fn.body.calls('increment'):
+                o = base_object(c)
+                if o is not None and strip_casts(o).n in ('receive_counter_', 'transmit_counter_'):
+                    want = 'increment_receive_packet_counter' if strip_casts(o).n == 'receive_counter_' else 'increment_transmit_packet_counter'
+                    ok = fn.name == want
+                    chk.instance('counter-carry', fn, '%s.increment() in %s' % (strip_casts(o).n, fn.name), ok, '' if ok else 'packet counter advanced outside its forwarding function', node=c, key='inc %s in %s' % (strip_casts(o).n, fn.name))
+    for fn in facts.functions:
+        if fn.name in ('increment_receive_packet_counter', 'increment_transmit_packet_counter'):
+            continue   # forwarding functions of the radio bindings (radio -> hardware)
         for c in fn.body.calls('increment_receive_packet_counter'):
             if fn.q == BUF + 'received':
                 ats = guard_atoms(fn, c)
